@@ -180,6 +180,9 @@ class C13Episode(Episode):
 
 WORDS = ['abc', '--opt=val', 'x', '-v', 'a.b', 'path/to/file', '100%', 'a$b',
          '$HOME', '$$', '{curly}', 'semi;colon', 'eq=', 'ünï',
+         # the deprecated spelling of the worker id, and what merely begins
+         # like it: literal dollars all of them
+         '$WID', '$WIDTH', 'x$WIDGET',
          # characters that mean something to a shell or to shlex options
          # other than the documented ones (comments, globbing, pipes)
          '--colour=#fff', '#', 'url#frag', '*.log', 'a|b', '&', '~user',
